@@ -546,6 +546,47 @@ func recoverImage(t *testing.T, j *vlib.Job, cr *crashRun, img crashImage, ops [
 		defer os.RemoveAll(dir)
 		o := cr.opts
 		o.Dir, o.ValueDir = dir, dir
+		if oracle == "c07ro" {
+			// C07: a read-only open of ANY image (here: what a crash left behind), whether it
+			// succeeds or is refused, and reading through it, changes no file
+			h0 := hashDir(dir)
+			before := map[string][]byte{}
+			if ents, err := os.ReadDir(dir); err == nil {
+				for _, en := range ents {
+					before[en.Name()], _, _, _ = readSparse(filepath.Join(dir, en.Name()))
+				}
+			}
+			ro := o
+			ro.ReadOnly = true
+			rdb, rerr := Open(ro)
+			if rerr != nil {
+				bubbleLeakOK = true
+			} else {
+				_, _, _ = visibleState(rdb)
+				_ = rdb.Close()
+			}
+			if h1 := hashDir(dir); h1 != h0 {
+				diff := ""
+				for n, b := range before {
+					a, _, _, err := readSparse(filepath.Join(dir, n))
+					a, b = bytes.TrimRight(a, "\x00"), bytes.TrimRight(b, "\x00")
+					if err != nil {
+						diff += fmt.Sprintf(" %s: removed;", n)
+						continue
+					}
+					i := 0
+					for i < len(a) && i < len(b) && a[i] == b[i] {
+						i++
+					}
+					if i < len(a) || i < len(b) {
+						j := i + 24
+						diff += fmt.Sprintf(" %s: length %d -> %d, first difference at offset %d (% x -> % x);", n, len(b), len(a), i, b[i:min(j, len(b))], a[i:min(j, len(a))])
+					}
+				}
+				class, desc = "readonly-open-modified", fmt.Sprintf("image %s of history %v: a read-only Open (result: %v) changed the directory:%s\n  before %s\n  after  %s", img.Name, cr.hist, rerr, diff, h0, h1)
+			}
+			return
+		}
 		db, err := Open(o)
 		if err != nil {
 			bubbleLeakOK = true
